@@ -135,3 +135,26 @@ func init() {
 			},
 			As: func(r *t08) (r0 int) { vkit.Sink(7); return }})
 }
+
+// ---- targets addressed from other packages through Builder.Pkg(PkgPath) (property C12) ----
+
+//go:noinline
+func pf(x int) int { return x*10 + 8 }
+
+// CallPF calls the unexported function pf.
+func CallPF(x int) int { return pf(x) }
+
+// AsPF is the signature template of pf.
+var AsPF = func(x int) (r int) { vkit.Sink(21); return }
+
+//go:noinline
+func (r *t08) mul(a0 int) int { return a0*10 + r.N }
+
+// CallT08Mul calls (*t08).mul on an instance with N == 9.
+func CallT08Mul(x int) int { return (&t08{N: 9}).mul(x) }
+
+// AsT08Mul is the signature template of (*t08).mul (receiver first).
+var AsT08Mul interface{} = func(r *t08, a0 int) (r0 int) { vkit.Sink(22); return }
+
+// MkT08MulCb returns a callback for (*t08).mul that answers c.
+func MkT08MulCb(c int) interface{} { return func(r *t08, a0 int) int { return c } }
